@@ -68,6 +68,7 @@ func (Engine) Name() string { return "pinsim" }
 type dialEvent struct {
 	call, srv int
 	ok        bool
+	plain     bool // to the plain-HTTP hop
 }
 
 // defaults is the observable part of the process's default HTTP client
@@ -272,6 +273,19 @@ func (Engine) Run(t *testing.T, job *simkit.Job, rng *simkit.RNG, idx int64, c *
 		synctest.Test(t, func(*testing.T) { s.main() })
 	}()
 	resetGlobals()
+	if s.harnessErr == "" && !s.invalid {
+		iters := s.cfg.Hammer
+		if c != nil {
+			// a replay tries harder, and may be retried: whether the goroutines
+			// collide is up to the scheduler (only the verdict is not)
+			iters *= 10
+			if iters > 0 {
+				s.probes["coin_steps"] = 1
+			}
+		}
+		s.step++
+		s.hammer(iters)
+	}
 	return out()
 }
 
@@ -359,6 +373,17 @@ func (s *sim) main() {
 		go func() { _ = hs.Serve(tl) }()
 		s.trace = append(s.trace, "server "+sv.describe())
 	}
+	// the plain-HTTP hop: answers everything with a 302 to the same host and
+	// URL under https (the client then repeats a POST as a GET without body)
+	rl := s.net.Listen("redir", &net.TCPAddr{IP: net.IPv4(192, 0, 2, 8), Port: 80})
+	rs := &http.Server{ErrorLog: log.New(io.Discard, "", 0), Handler: http.HandlerFunc(func(w http.ResponseWriter, r *http.Request) {
+		_ = http.NewResponseController(w).EnableFullDuplex()
+		w.Header().Set("Connection", "close")
+		w.Header().Set("Location", "https://"+r.Host+r.URL.RequestURI())
+		w.WriteHeader(http.StatusFound)
+	})}
+	s.https = append(s.https, rs)
+	go func() { _ = rs.Serve(rl) }()
 	synctest.Wait()
 
 	for _, a := range s.script {
@@ -399,7 +424,7 @@ const canaryHost = "c0.canary.test"
 
 // dial: the host name says which call dials and which server it wants.
 func (s *sim) dial(ctx context.Context, network, addr string) (net.Conn, error) {
-	host, _, err := net.SplitHostPort(addr)
+	host, port, err := net.SplitHostPort(addr)
 	if err != nil {
 		host = addr
 	}
@@ -418,9 +443,14 @@ func (s *sim) dial(ctx context.Context, network, addr string) (net.Conn, error) 
 		k, _ = strconv.Atoi(p[0][1:])
 		n, _ = strconv.Atoi(p[1][3:])
 	}
-	conn, derr := s.net.Dial("srv"+strconv.Itoa(n), s.cfg.Frag)
+	name := "srv" + strconv.Itoa(n)
+	if port == "80" {
+		// the plain-HTTP hop in front of every server
+		name = "redir"
+	}
+	conn, derr := s.net.Dial(name, s.cfg.Frag)
 	s.mu.Lock()
-	s.dialEv = append(s.dialEv, dialEvent{call: k, srv: n, ok: derr == nil})
+	s.dialEv = append(s.dialEv, dialEvent{call: k, srv: n, ok: derr == nil, plain: port == "80"})
 	if c := s.calls[k]; c != nil && derr == nil {
 		c.conns = append(c.conns, conn)
 	}
@@ -490,7 +520,16 @@ func (s *sim) apply(a Action) {
 		c := &call{s: s, k: a.Call, act: a, fp: fp, target: s.servers[a.Server], release: make(chan struct{})}
 		c.class, c.hash = classify(fp)
 		c.host = hostOf(c.k, c.target.n)
-		c.url = fmt.Sprintf("https://%s%s?call=%d", c.host, simpleshell.IOPath, c.k)
+		scheme, ok := map[string]string{"": "https", "upper": "HTTPS", "mixed": "Https", "redir": "http"}[a.URL]
+		if !ok {
+			s.invalid = true
+			return
+		}
+		c.url = fmt.Sprintf("%s://%s%s?call=%d", scheme, c.host, simpleshell.IOPath, c.k)
+		c.redirected = a.URL == "redir"
+		if a.URL != "" {
+			s.probes["url_"+a.URL]++
+		}
 		c.out = newOutPipe()
 		if a.HoldOutput {
 			c.hold = make(chan struct{})
@@ -556,7 +595,7 @@ func (s *sim) apply(a Action) {
 		}
 		c.fed++
 		tok := fmt.Sprintf("<tok c%d.%d>", c.k, c.fed)
-		if c.sawConnected && !c.sawReturned && !c.faulted {
+		if c.sawConnected && !c.sawReturned && !c.faulted && !c.redirected {
 			c.owed = append(c.owed, tok)
 		}
 		c.out.write([]byte(tok))
@@ -711,7 +750,11 @@ func (s *sim) observe() {
 	s.events, s.dialEv = nil, nil
 	s.mu.Unlock()
 	for _, d := range dials {
-		s.obs("dial call=%d srv%d ok=%v", d.call, d.srv, d.ok)
+		if d.plain {
+			s.obs("dial call=%d plain-HTTP hop of srv%d ok=%v", d.call, d.srv, d.ok)
+		} else {
+			s.obs("dial call=%d srv%d ok=%v", d.call, d.srv, d.ok)
+		}
 		c := s.calls[d.call]
 		if c == nil {
 			s.harnessErr = fmt.Sprintf("dial for unknown call %d", d.call)
